@@ -24,6 +24,7 @@ package edit
 
 //@ func pureMover
 //@   pure
+//@   functional
 //@   requires 0 <= dot && dot <= len(buffer)
 //@   ensures 0 <= result && result <= len(buffer)
 
@@ -37,6 +38,9 @@ package edit
 //@   requires buf != nil && 0 <= buf.Dot && buf.Dot <= len(buf.Content)
 //@   ensures [cursor-valid] 0 <= buf.Dot && buf.Dot <= len(buf.Content) && buf.Dot <= old(buf.Dot)
 //@   ensures [length] len(buf.Content) <= len(old(buf.Content))
+//   with nd the position the mover returned: the cursor ends at min(dot, nd) and exactly |dot - nd| bytes are gone
+//@   ensures [removed-left] pureMover(m, old(buf.Content), old(buf.Dot)) <= old(buf.Dot) ==> buf.Dot == pureMover(m, old(buf.Content), old(buf.Dot)) && len(buf.Content) == len(old(buf.Content)) - (old(buf.Dot) - buf.Dot)
+//@   ensures [removed-right] pureMover(m, old(buf.Content), old(buf.Dot)) > old(buf.Dot) ==> buf.Dot == old(buf.Dot) && len(buf.Content) == len(old(buf.Content)) - (pureMover(m, old(buf.Content), old(buf.Dot)) - old(buf.Dot))
 //   exactly the text between the old and the new cursor is removed: the part before the (new) cursor
 //   and the part after the removed range are unchanged
 //@   ensures [prefix-kept] forall k int :: 0 <= k && k < buf.Dot ==> buf.Content[k] == old(buf.Content)[k]
